@@ -44,9 +44,11 @@ def child_env(rng, hashseed, perturb=True):
     return env
 
 
-def exec_sim(repo, argv, side, hashseed, rng, cwd, npulses=10, disk=None):
+def exec_sim(repo, argv, side, hashseed, rng, cwd, npulses=10, disk=None, pyflags=()):
     spec = dict(repo=repo, verif=VERIF, side=side, argv=argv, disk=disk or {}, npulses=npulses)
-    p = subprocess.run([PY, os.path.join(HERE, 'launcher.py')], input=json.dumps(spec),
+    if pyflags:
+        S.fired('interpreter_flags')
+    p = subprocess.run([PY] + list(pyflags) + [os.path.join(HERE, 'launcher.py')], input=json.dumps(spec),
                        capture_output=True, text=True, env=child_env(rng, hashseed),
                        cwd=cwd, timeout=300)
     S.fired('hashseed_exec')
@@ -94,12 +96,15 @@ def _run_on_tty(cmd, env, cwd):
     return _Done(p.returncode, b''.join(chunks).decode(errors='replace'), err)
 
 
-def exec_real(repo, argv, hashseed, rng, scratch, tty=False):
+def exec_real(repo, argv, hashseed, rng, scratch, tty=False, optimize=False):
     """Unpatched run with real clock and real files in a scratch directory."""
     d = tempfile.mkdtemp(prefix='real', dir=scratch)
     try:
         env = child_env(rng, hashseed)
         env['PYTHONPATH'] = repo
+        if optimize:
+            env['PYTHONOPTIMIZE'] = '1'
+            S.fired('interpreter_flags')
         p = None
         if tty:
             env['TERM'] = 'xterm-256color'
